@@ -166,7 +166,29 @@ func c01NilResults(c *core.Check) {
 				}
 				n++
 				ok := false
-				if len(atoms) > 0 {
+				// dominance first (cheap, and enough for `if p != nil { … p[0] … }`): the use is dominated by the
+				// successor taken when the result is not nil, and that successor is entered from the test only
+				for _, b := range fn.Blocks {
+					ifi, isIf := b.Instrs[len(b.Instrs)-1].(*ssa.If)
+					if !isIf {
+						continue
+					}
+					cmp, isCmp := ifi.Cond.(*ssa.BinOp)
+					if !isCmp || cmp.X != ssa.Value(call) || (cmp.Op != token.NEQ && cmp.Op != token.EQL) {
+						continue
+					}
+					if k, isK := cmp.Y.(*ssa.Const); !isK || k.Value != nil {
+						continue
+					}
+					succ := b.Succs[0]
+					if cmp.Op == token.EQL {
+						succ = b.Succs[1]
+					}
+					if len(succ.Preds) == 1 && succ.Dominates(ref.Block()) {
+						ok = true
+					}
+				}
+				if !ok && len(atoms) > 0 && len(fn.Blocks) < 60 {
 					ok, _ = core.GuardedBy(fn, ref.Block(), atoms, func(m map[ssa.Value]bool) bool {
 						for a, v := range m {
 							if v == pol[a] {
